@@ -18,7 +18,7 @@ deriving DecidableEq, Repr
 def itemUniverse (G : Grammar) : List (Nat × Nat) :=
   (List.range G.nprods).flatMap (fun p => (List.range ((G.rhs p).length + 1)).map (fun d => (p, d)))
 
-def universe (G : Grammar) : List CFact :=
+def factUniverse (G : Grammar) : List CFact :=
   (itemUniverse G).map (fun x => CFact.item x.1 x.2) ++
   (itemUniverse G).flatMap (fun x => (List.range G.ntoks).map (fun t => CFact.la x.1 x.2 t))
 
@@ -38,7 +38,7 @@ def closeDerive (G : Grammar) (N : Nat → Bool) (F : Nat × Nat → Bool) (core
           (seqNullable N ((G.rhs x.1).drop (x.2 + 1)) && S (.la x.1 x.2 t)))))
 
 def close1 (G : Grammar) (N : Nat → Bool) (F : Nat × Nat → Bool) (core : List Item) : Option (List CFact) :=
-  lfp (universe G) (closeDerive G N F core) ((universe G).length + 1) []
+  lfp (factUniverse G) (closeDerive G N F core) ((factUniverse G).length + 1) []
 
 /-- do the dumped closed items denote exactly the fact set `S`? -/
 def sameAs (G : Grammar) (S : List CFact) (closed : List Item) : Bool :=
